@@ -5,7 +5,7 @@ Property theorems only, over the transition system `TdModel.Rpc` (`Model/C24.lea
 concurrent calls, `ForceClose` / `Close` / cancellation at every point relative to send, ack,
 result and retry timer.
 -/
-import TdModel.Lemmas.C26Started
+import TdModel.Lemmas.C26Live
 import TdModel.Model.C26Cfg
 
 namespace TdModel.C26
@@ -46,43 +46,18 @@ theorem forceClose_unblocks (mr iv : Nat) {s : State} (hr : Reachable (cfg mr iv
     (∃ a, a.ofCall i = true ∧ (step (cfg mr iv) s a).isSome = true) ∨
     (c.pc = .guard ∧ ∃ nid n a, c.owner = some (.notif nid) ∧ s.notifs nid = some n ∧
         a.ofNotif nid = true ∧ (step (cfg mr iv) s a).isSome = true) := by
-  have hi := reachable_inv (cfg := cfg mr iv) guard_in_source hr
-  have hcl := reachable_close (cfg := cfg mr iv) guard_in_source hr
-  have hstd := Cfg.std_all (source_shape mr iv)
-  cases hpc : c.pc with
-  | send0 => exact Or.inl ⟨.sret i .ok, by simp, by simp [step, stepSret, hc, hpc]⟩
-  | sendR =>
-    refine Or.inl ⟨.sret i .ok, by simp, ?_⟩
-    simp only [step, stepSret, hc, hpc]
-    split <;> simp
-  | loop =>
-    refine Or.inl ⟨.loopSel i .closed, by simp, ?_⟩
-    simp only [step, stepLoop, hc, hpc, hclosed, hstd]
-    cases c.acked <;> simp
-  | wait =>
-    refine Or.inl ⟨.waitSel i .closed, by simp, ?_⟩
-    simp only [step, stepWait, hc, hpc, hclosed, hstd]
-    cases c.done <;> simp
-  | drop => exact Or.inl ⟨.dret i .ok, by simp, by simp [step, stepDret, hc, hpc]⟩
-  | fin => exact absurd hret ((hi.fin_ret i c hc).2 hpc)
-  | guard =>
-    cases hd : c.done with
-    | true => exact Or.inl ⟨.gpass i, by simp, by simp [step, stepGpass, hc, hpc, hd]⟩
-    | false =>
-      have hgo := hcl.guard_owner i c hc hpc
-      cases ho : c.owner with
-      | none => exact absurd ho hgo.1
-      | some o =>
-        cases o with
-        | caller => exact absurd ho hgo.2
-        | notif nid =>
-          obtain ⟨n, hn, hst, hfn⟩ := hcl.owner_staged i c nid hc ho hd
-          refine Or.inr ⟨rfl, nid, n, ?_⟩
-          rcases hst with hst | hst
-          · refine ⟨.nrun nid, rfl, hn, by simp, ?_⟩
-            simp only [step, stepNrun, hn, hst, hfn, hc]
-            split <;> simp
-          · exact ⟨.nwrite nid .ok, rfl, hn, by simp, by simp [step, stepNwrite, hn, hst, hfn, hc]⟩
+  exact unblocked (cfg := cfg mr iv) guard_in_source (reachable_inv guard_in_source hr)
+    (reachable_close guard_in_source hr) hclosed hc hret
+
+/-- **Bounded termination after `ForceClose`.**  From every reachable state in which the engine has been
+force-closed there is a schedule consisting of thread steps only — steps of `Do` goroutines and of
+notifier goroutines already inside the engine; no result, acknowledgement, cancellation, clock travel
+or new call — of length at most `total s` (the sum of the ranks: ≤ 10 per call, ≤ 4 per notifier) after
+which every `Do` has returned; `Close` / `ForceClose` can then return (`close_returns_iff_all_returned`). -/
+theorem forceClose_terminates (mr iv : Nat) {s : State} (hr : Reachable (cfg mr iv) s) (hclosed : s.reqC = true) :
+    ∃ as s', (∀ a ∈ as, a.isThread = true) ∧ as.length ≤ total s ∧ run (cfg mr iv) s as = some s' ∧
+      (∀ i c, s'.calls i = some c → c.ret ≠ none) :=
+  forceClose_terminates_aux (cfg := cfg mr iv) guard_in_source (total s) s hr hclosed (Nat.le_refl _)
 
 /-- **… and returns after boundedly many own steps.**  Every step of a call's own thread strictly
 decreases its rank (`≤ 10`), every step of a notifier strictly decreases the notifier's rank (`≤ 4`),
@@ -141,7 +116,7 @@ theorem close_returns_iff_all_returned (mr iv : Nat) {s : State} (hr : Reachable
     · next hcond =>
       simp only [Bool.and_eq_true, List.contains_eq_mem, decide_eq_true_eq, List.all_eq_true] at hcond
       refine ⟨hcond.1, fun i c hc => ?_⟩
-      have := hcond.2 i (hl i (by simp [hc]))
+      have := hcond.2 i (hl.1 i (by simp [hc]))
       simp [hc] at this
       intro hn; simp [hn] at this
     · simp at h
